@@ -21,7 +21,7 @@ func c11Typed(x *runCtx) {
 		per = 5000
 	}
 	for _, wt := range wireTypes {
-		if wt.name == "any" || wt.name == "RawBytes" {
+		if wt.Name == "any" || wt.Name == "RawBytes" {
 			continue
 		}
 		for i := 0; i < per; i++ {
@@ -33,43 +33,43 @@ func c11Typed(x *runCtx) {
 func c11TypedOne(x *runCtx, f *filler, wt wireType) {
 	defer func() {
 		if p := recover(); p != nil {
-			x.r.Violate(rep.Violation{Kind: "panic", Check: "C11.typed-roundtrip", Signature: "C11.typed:panic:" + wt.name,
-				Input: wt.name, Impl: fmt.Sprint(p), PropertyFails: true})
+			x.r.Violate(rep.Violation{Kind: "panic", Check: "C11.typed-roundtrip", Signature: "C11.typed:panic:" + wt.Name,
+				Input: wt.Name, Impl: fmt.Sprint(p), PropertyFails: true})
 		}
 	}()
-	v := wt.mk()
+	v := wt.Mk()
 	f.fill(reflect.ValueOf(v).Elem(), 0)
 	b, err := cbor.Marshal(v)
 	if err != nil {
-		x.r.Case("typed-unencodable:"+wt.name, false, "typed-unencodable")
-		x.r.Violate(rep.Violation{Kind: "oracle", Check: "C11.typed-roundtrip", Signature: "C11.typed:encode-fails:" + wt.name,
-			Input: fmt.Sprintf("%s %+v", wt.name, reflect.ValueOf(v).Elem().Interface()), Impl: err.Error(), PropertyFails: true})
+		x.r.Case("typed-unencodable:"+wt.Name, false, "typed-unencodable")
+		x.r.Violate(rep.Violation{Kind: "oracle", Check: "C11.typed-roundtrip", Signature: "C11.typed:encode-fails:" + wt.Name,
+			Input: fmt.Sprintf("%s %+v", wt.Name, reflect.ValueOf(v).Elem().Interface()), Impl: err.Error(), PropertyFails: true})
 		return
 	}
-	x.r.Case("typed:"+wt.name+":"+gen.Hex(b), true, "typed:"+wt.name)
+	x.r.Case("typed:"+wt.Name+":"+gen.Hex(b), true, "typed:"+wt.Name)
 	if len(x.r.Samples) < 9 {
-		x.r.Sample(map[string]string{"type": wt.name, "encoded": trunc(gen.Hex(b), 120)}, 9)
+		x.r.Sample(map[string]string{"type": wt.Name, "encoded": trunc(gen.Hex(b), 120)}, 9)
 	}
-	v2 := wt.mk()
+	v2 := wt.Mk()
 	if err := cbor.Unmarshal(b, v2); err != nil {
-		x.r.Violate(rep.Violation{Kind: "oracle", Check: "C11.typed-roundtrip", Signature: "C11.typed:decode-of-encode-fails:" + wt.name,
-			Input: wt.name + " " + gen.Hex(b), Impl: err.Error(), PropertyFails: true})
+		x.r.Violate(rep.Violation{Kind: "oracle", Check: "C11.typed-roundtrip", Signature: "C11.typed:decode-of-encode-fails:" + wt.Name,
+			Input: wt.Name + " " + gen.Hex(b), Impl: err.Error(), PropertyFails: true})
 		return
 	}
 	if ok, why := sameValue(reflect.ValueOf(v).Elem(), reflect.ValueOf(v2).Elem()); !ok {
-		x.r.Violate(rep.Violation{Kind: "oracle", Check: "C11.typed-roundtrip", Signature: "C11.typed:value-changed:" + wt.name,
-			Input: wt.name + " " + gen.Hex(b), Impl: "decode(encode(v)) ≠ v: " + why, PropertyFails: true})
+		x.r.Violate(rep.Violation{Kind: "oracle", Check: "C11.typed-roundtrip", Signature: "C11.typed:value-changed:" + wt.Name,
+			Input: wt.Name + " " + gen.Hex(b), Impl: "decode(encode(v)) ≠ v: " + why, PropertyFails: true})
 		return
 	}
 	b2, err := cbor.Marshal(v2)
 	if err != nil || !bytes.Equal(b, b2) {
-		x.r.Violate(rep.Violation{Kind: "oracle", Check: "C11.typed-reencode", Signature: "C11.typed:reencode-differs:" + wt.name,
-			Input: wt.name + " " + gen.Hex(b), Impl: gen.Hex(b2), PropertyFails: true})
+		x.r.Violate(rep.Violation{Kind: "oracle", Check: "C11.typed-reencode", Signature: "C11.typed:reencode-differs:" + wt.Name,
+			Input: wt.Name + " " + gen.Hex(b), Impl: gen.Hex(b2), PropertyFails: true})
 	}
 	// the encoding must be canonical: the Lean strict decoder accepts it and reproduces it
-	x.c.add(pending{check: "C11.typed-canonical:" + wt.name, line: "cbor.strict " + gen.Hex(b),
-		impl: fmt.Sprintf("ok %d %s", len(b), gen.Hex(b)), input: wt.name + " " + gen.Hex(b),
+	x.c.add(pending{check: "C11.typed-canonical:" + wt.Name, line: "cbor.strict " + gen.Hex(b),
+		impl: fmt.Sprintf("ok %d %s", len(b), gen.Hex(b)), input: wt.Name + " " + gen.Hex(b),
 		onMismatch: func(string) (bool, string, string) {
-			return true, "C11.typed:not-canonical:" + wt.name, "library encoding is not in canonical form"
+			return true, "C11.typed:not-canonical:" + wt.Name, "library encoding is not in canonical form"
 		}})
 }
